@@ -121,7 +121,7 @@ def k_str2xml(ctx):
 
 
 def run(ctx):
-    ctx.check_proofs(extra_files=["StringsRun"])
+    ctx.check_proofs(extra_files=["StringsRun", "Properties_C12_frame"])
     k_str2xml(ctx)
     try:
         from checks import c12_e
